@@ -469,16 +469,107 @@ def contexts_part(ctx):  # noqa: C901, PLR0912
     ctx.exhaustive_parts.append('contexts: 48 parameter combinations of mk_ssl_contexts(_from_folder) x 6 handshakes')
 
 
+# --------------------------------------------------------- part client: the real soap client after connection faults
+def st_client_case():
+    fault = st.sampled_from([None, None, 'reset-on-response', 'disconnected-on-response', 'broken-pipe-on-send',
+                             'timeout-on-response'])
+    return st.lists(fault, min_size=2, max_size=5)
+
+
+def client_case(ctx, faults):
+    """The library's synchronous SoapClient, configured with a TLS context, talks to an in-memory server through
+    connections that can only come from its own _mk_http_connection (the place where the TLS context is applied).  Some
+    requests meet a connection fault.  Whatever the client does then (give up, reconnect), it never opens a connection
+    by other means: real socket connects are intercepted."""
+    import http.client
+    import logging
+    import socket
+
+    from vf import memhttp as M
+    from vf.props import c17
+    logging.disable(logging.CRITICAL)
+    server = M.MemServer()
+    echo = c17.Echo()
+    echo.response = b'<ok/>'
+    server.dispatcher.register_instance('p', echo)
+    plan = list(faults)
+    state = {'i': 0, 'made': 0}
+
+    class Sock(M._ClientSock):  # noqa: SLF001
+        def sendall(self, data):
+            if state.get('now') == 'broken-pipe-on-send':
+                state['now'] = None
+                raise BrokenPipeError(32, 'Broken pipe (injected)')
+            super().sendall(data)
+
+        def makefile(self, mode='rb', bufsize=-1):
+            now, state['now'] = state.get('now'), None
+            if now == 'reset-on-response':
+                raise ConnectionResetError(104, 'Connection reset by peer (injected)')
+            if now == 'disconnected-on-response':
+                raise http.client.RemoteDisconnected('Remote end closed connection without response (injected)')
+            if now == 'timeout-on-response':
+                raise TimeoutError('timed out (injected)')
+            return super().makefile(mode, bufsize)
+
+    class Conn(M.MemHTTPConnection):
+        def connect(self):
+            self.sock = Sock(self._mem_server, self._tap)
+
+    class Client(M.MemSoapClient):
+        def _mk_http_connection(self):
+            state['made'] += 1
+            return Conn(self.mem_server, self.tap)
+
+    real = []
+    saved = (socket.socket.connect, socket.socket.connect_ex, socket.create_connection)
+
+    def refuse(*a, **_kw):
+        real.append(a[-1] if a else None)
+        raise ConnectionRefusedError('vf: no real connections here')
+    socket.socket.connect = socket.socket.connect_ex = refuse
+    socket.create_connection = lambda address, *_a, **_k: refuse(address)
+    out = []
+    answered = 0
+    try:
+        client = Client(server, c17.FakeReader())
+        client._ssl_context = object()  # noqa: SLF001  (configured with TLS; applied in _mk_http_connection only)
+        for i, fault in enumerate(plan):
+            state['now'] = fault
+            try:
+                client.post_message_to('/p/x', c17.FakeMsg(b'<r>%d</r>' % i))
+                answered += 1
+            except Exception as ex:  # noqa: BLE001
+                if not R.exc_in_library(ex) and not isinstance(ex, (OSError, http.client.HTTPException)):
+                    raise
+            if real:
+                out.append((f'{P}/client/connection-outside-mk_http_connection',
+                            f'faults {plan}: after {fault!r} at request {i} the client connected a socket to {real[:2]} '
+                            f'without _mk_http_connection (where its TLS context is applied)'))
+                break
+    finally:
+        socket.socket.connect, socket.socket.connect_ex, socket.create_connection = saved
+    ctx.case(faults, any(f is not None for f in faults), 'client', classes=tuple(sorted({str(f) for f in faults})) + (
+        f'answered={min(answered, 3)}',))
+    return out
+
+
+def shard_client(ctx, n):
+    R.hyp_campaign(ctx, 'client', st_client_case(), lambda c: client_case(ctx, c), n)
+
+
 def shard(ctx, which, *args):
     if which == 'world':
         shard_world(ctx, *args)
+    elif which == 'client':
+        shard_client(ctx, *args)
     else:
         contexts_part(ctx)
 
 
 def run(ctx):
     quick = ctx.tier == 'quick'
-    jobs = [('world', 20 if quick else 400)] * (R.NPROC - 1) + [('contexts',)]
+    jobs = [('world', 20 if quick else 400)] * (R.NPROC - 2) + [('client', 150 if quick else 4000), ('contexts',)]
     R.run_shards(ctx, __name__, 'shard', jobs)
 
 
@@ -487,4 +578,6 @@ def replay(part, case):
     if part == 'contexts':
         contexts_part(ctx)
         return [(f['signature'], f['detail']) for f in ctx.findings.values()]
+    if part == 'client':
+        return client_case(ctx, case)
     return world_case(ctx, case)
